@@ -26,6 +26,9 @@ RULE = ("model kinds {Model+jacobian, Model+gradient, Model without gradient, Li
 F = Fraction
 SIG_DEFEQ = "Model._2par|array-input:default1d-domain,range-continuous1d-subclass-same-grid"
 SIG_SAMPLES = "Model._apply_func|samples-input:function-values,is_par=False"
+SIG_EQIDX = "Geometry._all_values_equal|array-input:Discrete-geometries-of-different-size:IndexError"
+SIG_0D = "Model.forward|range:single-step-StepExpansion:0-d-output"
+SIG_TAGLEAK = "Model.gradient|wrt:CUQIarray,domain-geometry-with-gradient:subclass-tag-of-wrt.funvals-reaches-_2par"
 
 
 # ------------------------------------------------------------------------------------------------
@@ -146,6 +149,14 @@ class Geo:
             out.append([k for k in range(nodes) if ((k >= lo) if i == 0 else (k > lo)) and k <= hi])
         return out
 
+    def par_order(self):
+        """for 2-d geometries: inv[k] = C-order flat index of the function value that parameter k is"""
+        d = self.d
+        r, c = d["r"], d["c"]
+        if d.get("visual") or d.get("order", "C") == "C":
+            return list(range(r * c))
+        return [i * c + j for j in range(c) for i in range(r)]
+
     @property
     def identity_like(self):
         return self.kind in ("default1d", "cont1d", "discrete", "image", "default2d", "cont2d")
@@ -234,7 +245,7 @@ class Geo:
             imp = _fn(("imap", key), lambda: (lambda x: horner(ics, x))) if ics is not None else None
             g = G.MappedGeometry(base, map=mp, imap=imp)
             if d.get("grad"):
-                g.gradient = _fn(("grad", key), lambda: (lambda direction, wrt: horner(dcs, wrt) * direction))
+                g.gradient = _fn(("grad", key), lambda: _geom_gradient(dcs, d.get("gstyle", "wrtfirst")))
             return g
         if k == "step":
             g = G.StepExpansion(np.arange(float(d["nodes"])), n_steps=d["steps"], fun2par_projection=d["proj"])
@@ -243,10 +254,12 @@ class Geo:
                 g.gradient = _fn(("sgrad", key), lambda: (lambda direction, wrt: np.array([np.sum(np.asarray(direction)[ix]) for ix in idx])))
             return g
         if k == "sub1d":
-            cls = _fn(("sub1dcls", bool(d.get("grad")), ics is not None), lambda: _make_sub1d(G, bool(d.get("grad")), ics is not None))
+            cls = _fn(("sub1dcls", bool(d.get("grad")) and d.get("gstyle", "wrtfirst"), ics is not None),
+                      lambda: _make_sub1d(G, bool(d.get("grad")) and d.get("gstyle", "wrtfirst"), ics is not None))
             return cls(d["n"], cs, ics, dcs)
         if k == "user":
-            cls = _fn(("usercls", bool(d.get("grad")), ics is not None), lambda: _make_user(G, bool(d.get("grad")), ics is not None))
+            cls = _fn(("usercls", bool(d.get("grad")) and d.get("gstyle", "wrtfirst"), ics is not None),
+                      lambda: _make_user(G, bool(d.get("grad")) and d.get("gstyle", "wrtfirst"), ics is not None))
             return cls(d["n"], cs, ics, dcs)
         raise ValueError(k)
 
@@ -274,7 +287,8 @@ class Geo:
         else:
             f2p = "F2Base"
         if d.get("grad"):
-            grad = "(Some (GGStepSum %s))" % cnatll(self.step_idx()) if k == "step" else "(Some (GGDiag %s))" % qv(dcoef(ufs(d["cs"])))
+            grad = "(Some (GGStepSum %s))" % cnatll(self.step_idx()) if k == "step" else "(Some (GGDiag %s %s))" % (
+                qv(dcoef(ufs(d["cs"]))), GSTYLES[d.get("gstyle", "wrtfirst")])
         else:
             grad = "None"
         vid = 1 if d.get("grid") else 0
@@ -290,10 +304,23 @@ class Geo:
         if self.kind in ("mapped", "mapped_img", "sub1d", "user"):
             s += "+imap" if d.get("ics") is not None else "-noimap"
         if d.get("grad"):
-            s += "+grad"
+            s += "+grad" + ("" if d.get("gstyle", "wrtfirst") == "wrtfirst" or self.kind == "step" else ":" + d["gstyle"])
         if d.get("grid"):
             s += "+grid1"
         return s
+
+
+GSTYLES = {"wrtfirst": "SelWrtDir", "dirfirst": "SelDirWrt", "strip": "SelNone"}
+
+
+def _geom_gradient(dcs, style):
+    """the user's geometry.gradient(direction, wrt_par) = dmap(wrt_par) * direction, written in one of three
+    equally natural ways; they differ only in which operand numpy takes the ndarray subclass from"""
+    if style == "dirfirst":
+        return lambda direction, wrt: direction * horner(dcs, wrt)
+    if style == "strip":
+        return lambda direction, wrt: np.asarray(horner(dcs, np.asarray(wrt))) * np.asarray(direction)
+    return lambda direction, wrt: horner(dcs, wrt) * direction
 
 
 def _make_sub1d(G, with_grad, with_inv):
@@ -311,7 +338,7 @@ def _make_sub1d(G, with_grad, with_inv):
                 raise NotImplementedError("no inverse")
             return horner(self._ics, f)
     if with_grad:
-        SubGeom.gradient = lambda self, direction, wrt: horner(self._dcs, wrt) * direction
+        SubGeom.gradient = lambda self, direction, wrt: _geom_gradient(self._dcs, with_grad)(direction, wrt)
     return SubGeom
 
 
@@ -333,7 +360,7 @@ def _make_user(G, with_grad, with_inv):
     if with_inv:
         UserGeom.fun2par = lambda self, f: horner(self._ics, f)
     if with_grad:
-        UserGeom.gradient = lambda self, direction, wrt: horner(self._dcs, wrt) * direction
+        UserGeom.gradient = lambda self, direction, wrt: _geom_gradient(self._dcs, with_grad)(direction, wrt)
     return UserGeom
 
 
@@ -361,11 +388,23 @@ def build_model(cuqi, meta, dg_obj, rg_obj):
         y = A @ horner(cs, x.ravel()) + b
         return y.reshape(rgs.fshape) if rgs.twod else y
 
+    # flat (1-d) Jacobians / gradients have one entry per PARAMETER (shape (range_dim, domain_dim)): for a
+    # 2-d domain geometry their columns follow the parameter vector's order, not numpy's C order
+    inv = dgs.par_order() if dgs.twod else None
+    mstyle, jt = meta.get("mstyle", "wrtfirst"), bool(meta.get("jt"))
+
     def jac(wrt):
-        return A * horner(dcs, np.asarray(wrt).ravel())[None, :]
+        w = wrt.ravel() if jt else np.asarray(wrt).ravel()
+        J = A * horner(dcs, w)[None, :]
+        return J[:, inv] if inv is not None else J
 
     def gdir(direction, wrt):
-        g = horner(dcs, wrt.ravel()) * (A.T @ direction.ravel())
+        if mstyle == "dirfirst":
+            g = (A.T @ direction.ravel()) * horner(dcs, wrt.ravel())
+        elif mstyle == "strip":
+            g = np.asarray(horner(dcs, np.asarray(wrt).ravel())) * (A.T @ np.asarray(direction).ravel())
+        else:
+            g = horner(dcs, wrt.ravel()) * (A.T @ direction.ravel())
         return g.reshape(dgs.fshape) if dgs.twod else g
 
     if kind == "jac":
@@ -379,7 +418,7 @@ def build_model(cuqi, meta, dg_obj, rg_obj):
                            domain_geometry=None if isinstance(dg_obj, int) else dg_obj), None
     if kind == "linfun":
         def adj(y):
-            g = A.T @ y.ravel()
+            g = A.T @ (np.asarray(y).ravel() if mstyle == "strip" else y.ravel())
             return g.reshape(dgs.fshape) if dgs.twod else g
         return LinearModel(fwd, adj, rg_obj, dg_obj), fwd
     if kind.startswith("pde"):
@@ -388,8 +427,11 @@ def build_model(cuqi, meta, dg_obj, rg_obj):
 
         class P(SteadyStateLinearPDE):
             pass
+        def gwp(self, direction, wrt):
+            g = horner(dcs, np.asarray(wrt).ravel()) * (A.T @ direction)
+            return g[inv] if inv is not None else g
         if kind in ("pde_gw", "pde_both"):
-            P.gradient_wrt_parameter = lambda self, direction, wrt: horner(dcs, np.asarray(wrt).ravel()) * (A.T @ direction)
+            P.gradient_wrt_parameter = gwp
         if kind == "pde_jw":
             P.jacobian_wrt_parameter = lambda self, wrt: jac(wrt)
         if kind == "pde_both":           # deliberately different, so that the dispatch order is visible
@@ -409,15 +451,26 @@ def coq_model(meta):
     fwd = "(mkFwd (poly_forward %s %s %s) %s)" % (qm(A), qv(cs), qv(b), keeps)
     dgs = Geo(**meta["dg"])
     shaped = cbool(dgs.twod)
-    gf = {"jac": "(GJac %s (poly_jac %s %s))" % (cnat(n), qm(A), qv(dcs)),
-          "dir": "(GDir (poly_dir %s %s %s) %s)" % (cnat(n), qm(A), qv(dcs), shaped),
+    msel = GSTYLES[meta.get("mstyle", "wrtfirst")]
+    jt = cbool(bool(meta.get("jt")))
+    # flat Jacobians / gradients are indexed like the parameter vector (see build_model)
+    if dgs.twod and dgs.d.get("order", "C") == "F" and not dgs.d.get("visual"):
+        r, c = cnat(dgs.d["r"]), cnat(dgs.d["c"])
+        pj = lambda J: "(fun w => map (img_fun2par %s %s) (%s w))" % (r, c, J)
+        pg = lambda g: "(fun d w => img_fun2par %s %s (%s d w))" % (r, c, g)
+    else:
+        pj = pg = lambda x: x
+    pjac = lambda AA: pj("(poly_jac %s %s)" % (qm(AA), qv(dcs)))
+    pdir = "(poly_dir %s %s %s)" % (cnat(n), qm(A), qv(dcs))
+    gf = {"jac": "(GJac %s %s %s)" % (cnat(n), pjac(A), jt),
+          "dir": "(GDir %s %s %s)" % (pdir, shaped, msel),
           "nograd": "GNone",
           "linmat": "(GAdjMat %s %s)" % (cnat(n), qm(A)),
-          "linfun": "(GAdjFun (qmattvec %s %s) %s)" % (cnat(n), qm(A), shaped),
-          "pde_gw": "(GPde (Some (poly_dir %s %s %s)) None)" % (cnat(n), qm(A), qv(dcs)),
-          "pde_jw": "(GPde None (Some (%s, poly_jac %s %s)))" % (cnat(n), qm(A), qv(dcs)),
-          "pde_both": "(GPde (Some (poly_dir %s %s %s)) (Some (%s, poly_jac %s %s)))" % (
-              cnat(n), qm(A), qv(dcs), cnat(n), qm([[2 * a for a in row] for row in A]), qv(dcs)),
+          "linfun": "(GAdjFun (qmattvec %s %s) %s %s)" % (cnat(n), qm(A), shaped, msel),
+          "pde_gw": "(GPde (Some (%s, SelDir)) None)" % pg(pdir),
+          "pde_jw": "(GPde None (Some (%s, %s, false)))" % (cnat(n), pjac(A)),
+          "pde_both": "(GPde (Some (%s, SelDir)) (Some (%s, %s, false)))" % (
+              pg(pdir), cnat(n), pjac([[2 * a for a in row] for row in A])),
           "pde_none": "(GPde None None)"}[kind]
     return fwd, gf
 
@@ -435,16 +488,20 @@ def probe(cuqi):
     from cuqi.model import Model
     from cuqi.samples import Samples
     defeq = bool(G._DefaultGeometry1D(2) == G.StepExpansion(np.arange(2.0), 2))
+    try:
+        eqidx = bool(G.Discrete(2) == G.Discrete(3))
+    except IndexError:
+        eqidx = True
     g = G.MappedGeometry(G.Continuous1D(1), map=lambda x: x + 1)
     m = Model(lambda x: x, 1, g)
     out = m.forward(Samples(np.array([[1.0]])), is_par=False).samples
     samples_par = bool(out[0, 0] == 2.0)
-    _PROBE["q"] = (defeq, samples_par)
+    _PROBE["q"] = (defeq, samples_par, eqidx)
     return _PROBE["q"]
 
 
 def coq_quirks(q):
-    return "(mkQ %s %s)" % (cbool(q[0]), cbool(q[1]))
+    return "(mkQ %s %s %s)" % (cbool(q[0]), cbool(q[1]), cbool(q[2]))
 
 
 # ------------------------------------------------------------------------------------------------
@@ -455,6 +512,8 @@ def exc_class(e):
         return "ENotImpl"
     if isinstance(e, ValueError):
         return "EValue"
+    if isinstance(e, IndexError):
+        return "EIndex"
     return "other:" + type(e).__name__
 
 
@@ -463,21 +522,24 @@ def shape_fun(gs, flat):
     return a.reshape(gs.fshape) if gs.twod else a
 
 
-def observe_output(out, want_geom):
-    """-> (kind, cols as lists of Fractions, geometry-identity flag) ; kind 9 = something unexpected"""
+def observe_output(out, want_geom, also=()):
+    """-> (kind, cols as lists of Fractions, labelling flag)
+    kind: 0 ndarray 1-d, 1 CUQIarray 1-d, 2 Samples, 3 ndarray 0-d, 4 CUQIarray 0-d, 9 = something unexpected
+    flag: a CUQIarray / Samples result is labelled is_par=True with the model's own geometry object (or, for
+    `also`, the geometry object of an input array it inherited its label from)"""
     from cuqi.array import CUQIarray
     from cuqi.samples import Samples
     if isinstance(out, Samples):
         s = np.asarray(out.samples)
         ok = out.geometry is want_geom and out.is_par is True and s.ndim == 2
         return 2, [[frac(v) for v in s[:, k]] for k in range(s.shape[-1])] if s.ndim == 2 else [], ok
-    if type(out) is CUQIarray:
+    if isinstance(out, CUQIarray):
         a = np.asarray(out)
-        ok = out.geometry is want_geom and out.is_par is True and a.ndim == 1
-        return 1, [[frac(v) for v in a.ravel()]], ok
+        ok = (out.geometry is want_geom or any(out.geometry is g for g in also)) and out.is_par is True
+        return ({1: 1, 0: 4}.get(a.ndim, 9) if type(out) is CUQIarray else 9), [[frac(v) for v in a.ravel()]], ok
     if isinstance(out, np.ndarray):
         a = np.asarray(out)
-        return (0 if a.ndim == 1 else 9), [[frac(v) for v in a.ravel()]], True
+        return {1: 0, 0: 3}.get(a.ndim, 9), [[frac(v) for v in a.ravel()]], True
     return 9, [], False
 
 
@@ -525,7 +587,7 @@ def coq_vec_input(form, vals, gs_coq, ctor_vec, ctor_arr, ctor_samples):
     if base == "arrdefault":
         return "(%s %s true %s)" % (ctor_arr, Geo(kind="default1d", n=len(vals[0])).coq(), qv(vals[0]))
     if base in ("samples", "samplesfun"):
-        return ctor_samples(vals)
+        return ctor_samples(vals, base == "samplesfun")
     raise ValueError(form)
 
 
@@ -568,12 +630,14 @@ def compare(obs, exp):
         return None if obs[0] == "err" else "expected a refusal (%s) but a value was returned: %s" % (exp[1], _show(obs))
     if obs[0] == "err":
         return "expected %s but the call raised %s" % (_show(exp), obs[2])
+    if obs[1] in (3, 4) and obs[1] - 3 == exp[1]:
+        return "0-d output %s where the range geometry has par_shape (1,): expected %s" % (_show(obs), _show(exp))
     if obs[1] != exp[1]:
-        return "wrapper kind %s, expected %s (0 ndarray, 1 CUQIarray, 2 Samples, 9 malformed)" % (obs[1], exp[1])
+        return "wrapper kind %s, expected %s (0 ndarray, 1 CUQIarray, 2 Samples, 3/4 the same but 0-d, 9 malformed)" % (obs[1], exp[1])
     if obs[2] != exp[2]:
         return "values %s, expected (parameters of the range geometry) %s" % (_show(obs), _show(exp))
     if not obs[3]:
-        return "output is not wrapped with the model's own geometry / is_par=True / 1-d"
+        return "output is not wrapped with the model's own geometry / is_par=True"
     return None
 
 
@@ -585,7 +649,7 @@ def _show(o):
 
 def coq_obs(obs):
     if obs[0] == "err":
-        return "(ObsErr %s)" % obs[1] if obs[1] in ("ENotImpl", "EValue") else "(ObsVal 99%nat [])"
+        return "(ObsErr %s)" % obs[1] if obs[1] in ("ENotImpl", "EValue", "EIndex") else "(ObsVal 99%nat [])"
     return "(ObsVal %s %s)" % (cnat(obs[1]), clist([cqvec(c) for c in obs[2]]))
 
 
@@ -595,7 +659,7 @@ def forward_case(cuqi, meta, q):
     fwd, _ = coq_model(meta)
     vals = [ufs(c) for c in meta["vals"]]
     xin = coq_vec_input(meta["form"], vals, dgs.coq(), "InVec", "InArr",
-                        lambda vs: "(InSamples %s)" % clist([qv(c) for c in vs]))
+                        lambda vs, isfun: "(InSamples %s %s)" % (cbool(isfun and dgs.twod), clist([qv(c) for c in vs])))
     okflag = obs[3] if obs[0] == "val" else True
     expr = "check_forward %s %s %s %s %s %s %s %s" % (coq_quirks(q), fwd, rgs.coq(), dgs.coq(), xin,
                                                       cbool(meta["flag"]), coq_obs(obs), cbool(okflag))
@@ -627,7 +691,8 @@ def run_gradient_case(cuqi, meta):
     wpar = wform.split("=")[0] not in ("fun",) if "wpar" not in meta else meta["wpar"]
     try:
         out = model.gradient(direction, wrt, is_direction_par=dpar, is_wrt_par=wpar)
-        kind, cols, ok = observe_output(out, model.domain_geometry)
+        kind, cols, ok = observe_output(out, model.domain_geometry,
+                                        also=[x.geometry for x in (wrt, direction) if hasattr(x, "geometry")])
         obs = ("val", kind, cols, ok)
     except Exception as e:
         obs = ("err", exc_class(e), repr(e)[:200])
@@ -674,12 +739,16 @@ def compare_gradient(obs, exp, refusal_ok):
     # a value was returned: it must be the transposed Jacobian applied to the direction
     if exp is None:
         return "a value was returned although no gradient can be formed (%s): %s" % (refusal_ok, _show(obs))
-    if obs[1] != exp[1]:
+    # the property fixes the VALUE of the gradient; about its wrapper it only follows that a CUQIarray result must
+    # be truthfully labelled (parameters of the domain geometry).  Whether the result is a CUQIarray is compared
+    # exactly with the Coq model (it follows `direction`, except that the subclass of a CUQIarray `wrt` leaks
+    # through numpy arithmetic), but a CUQIarray where an ndarray was expected is not counted as a violation.
+    if obs[1] not in (0, 1) or (exp[1] == 1 and obs[1] != 1):
         return "wrapper kind %s, expected %s" % (obs[1], exp[1])
     if obs[2] != exp[2]:
         return "gradient %s differs from J^T d = %s (exact Jacobian of the parameter-to-output map)" % (_show(obs), _show(exp))
     if not obs[3]:
-        return "gradient not wrapped with the model's domain geometry / not 1-d"
+        return "gradient is a CUQIarray not labelled as parameters of the model's domain geometry"
     return None
 
 
@@ -688,7 +757,7 @@ def gradient_case(cuqi, meta, q):
     dgs, rgs = Geo(**meta["dg"]), Geo(**meta["rg"])
     _, gf = coq_model(meta)
     d, w = ufs(meta["d"]), ufs(meta["w"])
-    samp = lambda vs: "GiSamples"
+    samp = lambda vs, isfun: "GiSamples"
     din = coq_vec_input(meta["dform"], [d], rgs.coq(), "GiVec", "GiArr", samp)
     win = coq_vec_input(meta["wform"], [w], dgs.coq(), "GiVec", "GiArr", samp)
     okflag = obs[3] if obs[0] == "val" else True
@@ -796,8 +865,28 @@ def bind_case(cuqi, meta, q):
 # ------------------------------------------------------------------------------------------------
 # signatures
 # ------------------------------------------------------------------------------------------------
+def leak_config(m):
+    """gradient configurations in which the subclass tag (geometry, is_par=False) of wrt.funvals survives to the final
+    _2par of Model.gradient: wrt is a CUQIarray, the domain geometry has a `gradient` written direction-first, and the
+    model's gradient callable hands on wrt's subclass"""
+    dg = Geo(**m["dg"])
+    if not dg.has_grad or dg.kind == "step" or dg.d.get("gstyle", "wrtfirst") != "dirfirst":
+        return False
+    if m["wform"].split("=")[0] not in ("arrpar", "arrfun"):
+        return False
+    d_tagged = m["dform"].split("=")[0] in ("arrpar", "arrfun")
+    if m["mk"] == "dir":
+        ms = m.get("mstyle", "wrtfirst")
+        return ms == "wrtfirst" or (ms == "dirfirst" and not d_tagged)
+    if m["mk"] == "jac":
+        return bool(m.get("jt")) and not d_tagged
+    return False
+
+
 def classify(meta, detail):
     m = meta.get("meta", meta)
+    if m.get("witness"):
+        return m["witness"]
     op = m.get("op")
     if op == "forward":
         dg, rg = Geo(**m["dg"]), Geo(**m["rg"])
@@ -807,9 +896,17 @@ def classify(meta, detail):
             return SIG_DEFEQ
         if base == "samplesfun" and not m["flag"]:
             return SIG_SAMPLES
+        if base in ("arrpar", "arrfun") and dg.kind == "discrete" and rg.kind == "discrete" and dg.pdim != rg.pdim:
+            return SIG_EQIDX
+        if rg.kind == "step" and rg.d["steps"] == 1 and base not in ("samples", "samplesfun") and "0-d output" in str(detail):
+            return SIG_0D
         return "Model.forward|%s:%s->%s:%s" % (base, dg.name(), rg.name(), m["mk"])
     if op == "gradient":
         dg, rg = Geo(**m["dg"]), Geo(**m["rg"])
+        if leak_config(m):
+            return SIG_TAGLEAK
+        if m["dform"].split("=")[0] in ("arrpar", "arrfun") and dg.kind == "discrete" and rg.kind == "discrete" and dg.pdim != rg.pdim:
+            return SIG_EQIDX
         return "Model.gradient|d=%s,w=%s:%s->%s:%s" % (m["dform"].split("=")[0], m["wform"].split("=")[0], dg.name(), rg.name(), m["mk"])
     if op == "rename":
         return "Model.forward(distribution)|%s" % m["mk"]
@@ -833,7 +930,11 @@ def geo_pool_1d(n, rng):
             Geo(kind="mapped", n=n, cs=fs(aff), ics=fs(iaff)), Geo(kind="mapped", n=n, cs=fs(aff), ics=fs(iaff), grad=True),
             Geo(kind="sub1d", n=n, cs=fs(aff), ics=fs(iaff)), Geo(kind="sub1d", n=n, cs=fs(aff), ics=fs(iaff), grad=True),
             Geo(kind="user", n=n, cs=fs(cs2)), Geo(kind="user", n=n, cs=fs(cs2), grad=True),
-            Geo(kind="user", n=n, cs=fs(aff), ics=fs(iaff), grad=True)]
+            Geo(kind="user", n=n, cs=fs(aff), ics=fs(iaff), grad=True),
+            Geo(kind="mapped", n=n, cs=fs(aff), ics=fs(iaff), grad=True, gstyle="dirfirst"),
+            Geo(kind="mapped", n=n, cs=fs(cs2), grad=True, gstyle="strip"),
+            Geo(kind="sub1d", n=n, cs=fs(aff), ics=fs(iaff), grad=True, gstyle="strip"),
+            Geo(kind="user", n=n, cs=fs(cs2), grad=True, gstyle="dirfirst")]
     for steps in sorted({1, max(1, n // 2), n}):
         if steps <= n and all(Geo(kind="step", nodes=n, steps=steps, proj="max").step_idx()):
             sizes = {len(ix) for ix in Geo(kind="step", nodes=n, steps=steps, proj="max").step_idx()}
@@ -874,7 +975,7 @@ def rand_model(rng, mk, nin, nout):
 
 def model_allowed(mk, dg, rg, forward=True):
     """combinations in which the forward callable is well defined (see module docstring)"""
-    if mk == "linmat" and (dg.twod or rg.twod) and forward:
+    if mk == "linmat" and (dg.twod or (rg.twod and forward)):
         return False            # matrix @ 2-d image: not a model the matrix form supports
     if mk.startswith("pde") and rg.twod:
         return False            # observations are 1-d
@@ -885,7 +986,8 @@ def run(ctx):
     import cuqi
     rng = ctx.rng
     q = probe(cuqi)
-    ctx.note("tree state: _DefaultGeometry1D equals Continuous1D subclasses = %s; Samples columns always treated as parameters = %s" % q)
+    ctx.note("tree state: _DefaultGeometry1D equals Continuous1D subclasses = %s; Samples columns always treated as parameters = %s; "
+             "Discrete(m) == Discrete(n) raises IndexError = %s" % q)
     cases = []
     reps = ctx.n(1, 6)
 
@@ -937,6 +1039,34 @@ def run(ctx):
                     meta = dict(op="forward", mk=mk, dg=dg.d, rg=rg.d, form=form, vals=[fs(p)], flag=True, call=False, **mm)
                     add(forward_case, meta)
 
+    # ---- Discrete geometries of different size on the two sides, always (geometry comparison of a CUQIarray's tag)
+    for n, m_ in [(4, 3), (2, 3), (3, 3)]:
+        dg, rg = Geo(kind="discrete", n=n), Geo(kind="discrete", n=m_)
+        for mk in ["linmat", "jac", "pde_gw"]:
+            mm = rand_model(rng, mk, n, m_)
+            for form in ["par", "arrpar", "arrfun=copy", "samples"]:
+                cols = [rand_vec(rng, n) for _ in range(2 if form == "samples" else 1)]
+                add(forward_case, dict(op="forward", mk=mk, dg=dg.d, rg=rg.d, form=form, vals=[fs(c) for c in cols], flag=True, call=False, **mm))
+            for dform, wform in [("par", "par"), ("arrpar", "par"), ("arrfun=copy", "arrpar"), ("par", "arrfun")]:
+                add(gradient_case, dict(op="gradient", mk=mk, dg=dg.d, rg=rg.d, dform=dform, wform=wform, d=fs(rand_vec(rng, m_)),
+                                        w=fs(rand_vec(rng, n)), **mm))
+    # ---- single-parameter StepExpansion ranges, always (fun2par squeezes to a 0-d array)
+    for n in [2, 3]:
+        for pj in ["max", "min", "mean"] if n == 2 else ["max"]:
+            rg = Geo(kind="step", nodes=n, steps=1, proj=pj)
+            for dg in [Geo(kind="cont1d", n=3), Geo(kind="mapped", n=2, cs=fs([1, 0, 1])), Geo(kind="image", r=2, c=2, order="F")]:
+                for mk in ["jac", "linfun", "pde_gw"]:
+                    mm = rand_model(rng, mk, dg.nfun, n)
+                    for form in ["par", "fun", "arrpar", "arrfun=copy", "samples"]:
+                        base = form.split("=")[0]
+                        cols = []
+                        for _ in range(2 if base == "samples" else 1):
+                            p = rand_vec(rng, dg.pdim, halves=False)
+                            cols.append(dg.o_par2fun(p) if base in ("fun", "arrfun") else p)
+                        meta = dict(op="forward", mk=mk, dg=dg.d, rg=rg.d, form=form, vals=[fs(c) for c in cols], flag=base != "fun",
+                                    call=False, **mm)
+                        add(forward_case, meta)
+
     # ---------------- gradient ----------------
     dforms = ["par", "fun", "arrpar", "arrfun=copy", "samples"]
     wforms = ["par", "fun", "arrpar=copy", "arrfun", "samples"]
@@ -966,8 +1096,34 @@ def run(ctx):
                                 d_in = dvec
                             w_in = dg.o_par2fun(p) if wform.split("=")[0] in ("fun", "arrfun") else p
                             meta = dict(op="gradient", mk=mk, dg=dg.d, rg=rg.d, dform=dform, wform=wform, d=fs(d_in), w=fs(w_in), **mm)
+                            if mk in ("dir", "linfun"):
+                                meta["mstyle"] = rng.choice(["wrtfirst", "dirfirst", "strip"])
+                            if mk == "jac":
+                                meta["jt"] = rng.random() < 0.4
                             if wform == "samples":
                                 meta["wpar"] = True
+                            add(gradient_case, meta)
+    # ---- subclass-tag propagation through the user callables, always: every style of the model's gradient callable x
+    #      every style of the geometry's gradient x direction form x wrt form (contains the tag-leak class)
+    for n in [3]:
+        a_, b_ = 2, 1
+        aff, iaff = [b_, a_], [F(-b_, a_), F(1, a_)]
+        for gsty in ["wrtfirst", "dirfirst", "strip"]:
+            doms = [Geo(kind="mapped", n=n, cs=fs(aff), ics=fs(iaff), grad=True, gstyle=gsty),
+                    Geo(kind="mapped", n=n, cs=fs([0, 1, 1]), grad=True, gstyle=gsty),
+                    Geo(kind="user", n=n, cs=fs(aff), ics=fs(iaff), grad=True, gstyle=gsty),
+                    Geo(kind="sub1d", n=n, cs=fs(aff), ics=fs(iaff), grad=True, gstyle=gsty)]
+            for dg in doms:
+                for mk, extra in [("dir", {"mstyle": "wrtfirst"}), ("dir", {"mstyle": "dirfirst"}), ("dir", {"mstyle": "strip"}),
+                                  ("jac", {"jt": True}), ("jac", {"jt": False}), ("linmat", {}), ("pde_gw", {})]:
+                    rg = rng.choice([Geo(kind="default1d", n=2), Geo(kind="cont1d", n=2), Geo(kind="discrete", n=3)])
+                    mm = rand_model(rng, mk, n, rg.nfun)
+                    for dform in ["par", "arrpar", "arrfun=copy"]:
+                        for wform in ["par", "arrpar", "arrfun", "arrpar=copy"]:
+                            dvec, pvec = rand_vec(rng, rg.pdim), rand_vec(rng, n, halves=False)
+                            w_in = dg.o_par2fun(pvec) if wform.split("=")[0] == "arrfun" else pvec
+                            meta = dict(op="gradient", mk=mk, dg=dg.d, rg=rg.d, dform=dform, wform=wform, d=fs(dvec), w=fs(w_in), **mm)
+                            meta.update(extra)
                             add(gradient_case, meta)
 
     # ---------------- rename on a distribution; argument binding ----------------
@@ -990,7 +1146,8 @@ def run(ctx):
                 add(bind_case, meta)
 
     return Result(cases=cases, rule=RULE,
-                  extra={"tree_state": {"default1d_eq_accepts_subclasses": q[0], "samples_flag_ignored": q[1]}},
+                  extra={"tree_state": {"default1d_eq_accepts_subclasses": q[0], "samples_flag_ignored": q[1],
+                                        "discrete_eq_indexerror": q[2]}},
                   assumptions=["numpy @, reshape/ravel(order), elementwise + and * are exact on the small integer/dyadic data generated",
                                "scipy.linalg.solve on an identity matrix is exact (PDEModel cells)",
                                "the forward callable, the user Jacobian / direction-Jacobian product and the user geometry gradient are "
@@ -1028,12 +1185,29 @@ W_SAMPLES = dict(op="forward", mk="jac", dg=dict(kind="mapped", n=3, cs=["0", "0
                  A=[[("3" if i == j else "0") for j in range(3)] for i in range(3)], cs=["0", "1"], b=["0"] * 3)
 
 
+W_0D = dict(op="forward", mk="jac", dg=dict(kind="cont1d", n=3), rg=dict(kind="step", nodes=2, steps=1, proj="mean"),
+            form="par", vals=[["1", "2", "3"]], flag=True, call=False,
+            A=[["1", "0", "1"], ["0", "2", "1"]], cs=["0", "1"], b=["0", "0"])
+W_TAGLEAK = dict(op="gradient", mk="dir", mstyle="wrtfirst",
+                 dg=dict(kind="mapped", n=3, cs=["1", "2"], ics=["-1/2", "1/2"], grad=True, gstyle="dirfirst"),
+                 rg=dict(kind="default1d", n=2), dform="par", wform="arrpar", d=["1", "-1"], w=["1", "2", "3"],
+                 A=[["1", "2", "0"], ["0", "1", "3"]], cs=["0", "0", "1"], b=["0", "0"])
+W_EQIDX = dict(op="forward", mk="linmat", dg=dict(kind="discrete", n=4), rg=dict(kind="discrete", n=3),
+               form="arrpar", vals=[["1", "2", "3", "4"]], flag=True, call=False,
+               A=[["1", "1", "-1", "0"], ["2", "0", "2", "-2"], ["0", "0", "1", "1"]], cs=["0", "1"], b=["0", "0", "0"])
+WITNESSES = {SIG_EQIDX: W_EQIDX, SIG_DEFEQ: W_DEFEQ, SIG_SAMPLES: W_SAMPLES, SIG_0D: W_0D, SIG_TAGLEAK: W_TAGLEAK}
+
+
 def known_witnesses(ctx):
     import cuqi
     out = {}
-    for sig, w in ((SIG_DEFEQ, W_DEFEQ), (SIG_SAMPLES, W_SAMPLES)):
-        obs, exp, _ = run_forward_case(cuqi, w)
-        d = compare(obs, exp)
+    for sig, w in WITNESSES.items():
+        if w["op"] == "forward":
+            obs, exp, _ = run_forward_case(cuqi, w)
+            d = compare(obs, exp)
+        else:
+            obs, exp, refusal_ok, _ = run_gradient_case(cuqi, w)
+            d = compare_gradient(obs, exp, refusal_ok)
         out[sig] = (d is not None, d or "witness agrees with the property")
     return out
 
@@ -1044,7 +1218,7 @@ def replay(ctx, meta):
     print(json.dumps({k: v for k, v in meta.items() if k != "meta"}, indent=1)[:3000])
     print("case:", json.dumps(m)[:3000])
     if m.get("witness"):
-        m = {SIG_DEFEQ: W_DEFEQ, SIG_SAMPLES: W_SAMPLES}.get(m["witness"], m)
+        m = WITNESSES.get(m["witness"], m)
     q = probe(cuqi)
     if m.get("op") == "forward":
         obs, exp, _ = run_forward_case(cuqi, m)
